@@ -28,6 +28,7 @@ pub struct TcpRun {
     pub idle_tasks: [i64; 2],
     pub end_tasks: [i64; 2],
     pub mains_finished: (bool, bool),
+    pub stall_dump: String,
 }
 
 pub fn install_zone(plan: &Plan) {
@@ -72,6 +73,7 @@ pub async fn run_tcp_system(plan: &Plan, atomic_handshake: bool) -> TcpRun {
         idle_tasks: [0; 2],
         end_tasks: [0; 2],
         mains_finished: (false, false),
+        stall_dump: String::new(),
     };
     let mains = match start_system(&plan.config, "127.0.0.1", SERVER_PORT).await {
         Ok(m) => m,
@@ -115,6 +117,9 @@ pub async fn run_tcp_system(plan: &Plan, atomic_handshake: bool) -> TcpRun {
         tokio::time::sleep(Duration::from_millis(step)).await;
         waited += step;
     }
+    if run.timed_out {
+        run.stall_dump = dump_conns();
+    }
     // grace period: let teardown finish everywhere
     for t in &tasks {
         t.abort();
@@ -131,6 +136,35 @@ pub async fn run_tcp_system(plan: &Plan, atomic_handshake: bool) -> TcpRun {
         run.flows.push(std::mem::take(&mut *g));
     }
     run
+}
+
+/// State of every open connection (for diagnosing a stall): who holds it, bytes written/read per direction,
+/// what is buffered and who is parked on it.
+pub fn dump_conns() -> String {
+    world::with(|w| {
+        let mut out = String::new();
+        for (i, c) in w.conns.iter().enumerate() {
+            if !c.open[0] && !c.open[1] {
+                continue;
+            }
+            out.push_str(&format!("[c{i} {}->{} n{}/n{} open={:?}", c.a_addr.port(), c.b_addr.port(), c.owner[0], c.owner[1], c.open));
+            for (d, p) in c.pipes.iter().enumerate() {
+                out.push_str(&format!(
+                    " {}: w{} r{} buf{} cap{} rdwait={} wrwait={} fin={}",
+                    if d == 0 { "a>b" } else { "b>a" },
+                    p.written,
+                    p.read,
+                    p.inflight_bytes + p.rbuf.len(),
+                    p.cap,
+                    p.reader_waker.is_some(),
+                    p.writer_waker.is_some(),
+                    p.fin_at.is_some()
+                ));
+            }
+            out.push_str("] ");
+        }
+        out
+    })
 }
 
 pub fn first_mismatch(got: &[u8], want: &[u8]) -> Option<usize> {
@@ -204,10 +238,10 @@ pub fn check_c01(plan: &Plan, run: &TcpRun, w: &world::World) -> Vec<Violation> 
         }
         // (2) exactly once, in order, unmodified
         if let Some(at) = first_mismatch(&o.target.recv, &want_up) {
-            v.push(Violation::new("C01", sig("corrupt-up", f), format!("flow {ix}: target stream differs from what the application wrote at offset {at} (got {} bytes, sent {})", o.target.recv.len(), want_up.len())));
+            v.push(Violation::new("C01", sig("corrupt-up", f), format!("flow {ix}: target stream differs from what the application wrote at offset {at} (got {} bytes, sent {}); got {:02x?} expected {:02x?}", o.target.recv.len(), want_up.len(), &o.target.recv[at..(at + 24).min(o.target.recv.len())], &want_up[at.min(want_up.len())..(at + 24).min(want_up.len())])));
         }
         if let Some(at) = first_mismatch(&o.app.recv, &want_down) {
-            v.push(Violation::new("C01", sig("corrupt-down", f), format!("flow {ix}: application stream differs from what the target wrote at offset {at} (got {} bytes, sent {})", o.app.recv.len(), want_down.len())));
+            v.push(Violation::new("C01", sig("corrupt-down", f), format!("flow {ix}: application stream differs from what the target wrote at offset {at} (got {} bytes, sent {}); got {:02x?} expected {:02x?}", o.app.recv.len(), want_down.len(), &o.app.recv[at..(at + 24).min(o.app.recv.len())], &want_down[at.min(want_down.len())..(at + 24).min(want_down.len())])));
         }
         // (3) completeness
         let up_complete = o.target.recv.len() >= want_up.len();
@@ -226,7 +260,7 @@ pub fn check_c01(plan: &Plan, run: &TcpRun, w: &world::World) -> Vec<Violation> 
         let up_oracle = if o.target.end.is_some() { if down_active { "truncated-up+down-active" } else { "truncated-up" } } else { "stalled-up" };
         let down_oracle = if o.app.end.is_some() { if up_active { "truncated-down+up-active" } else { "truncated-down" } } else { "stalled-down" };
         if need_up && !up_complete && o.app.write_err.is_none() {
-            v.push(Violation::new("C01", sig(up_oracle, f), format!("flow {ix}: target received {} of {} bytes (timed_out={}, target end={:?})", o.target.recv.len(), want_up.len(), run.timed_out, o.target.end)));
+            v.push(Violation::new("C01", sig(up_oracle, f), format!("flow {ix}: target received {} of {} bytes (timed_out={}, target end={:?}) {}", o.target.recv.len(), want_up.len(), run.timed_out, o.target.end, run.stall_dump)));
         }
         if need_up && o.app.write_err.is_some() && !matches!(f.ending, Ending::TargetAfterWrite | Ending::TargetReset) {
             v.push(Violation::new("C01", sig("app-write-failed", f), format!("flow {ix}: application write failed with {:?} after {} bytes", o.app.write_err, o.app.wrote)));
@@ -285,8 +319,15 @@ pub fn gen_c01(seed: u64, thorough: bool) -> Plan {
     let config = gen_config(&mut g, proto, cipher, transport, n_users);
     let n_flows = if thorough { g.range(1, 12) } else { g.range(1, 4) } as usize;
     let max_bytes = if thorough && g.chance(10) { 3_000_000 } else if g.chance(20) { 200_000 } else { 20_000 };
-    let knobs = KnobsPlan::generate(&mut g);
+    let knobs = KnobsPlan::generate(&mut g).for_transport(transport);
     let max_bytes = if knobs.sndbuf <= 64 { max_bytes.min(6000) } else { max_bytes };
+    // byte-at-a-time reads under TLS cost a deframer pass per byte: keep those runs short, not absent
+    let tlsish = matches!(transport, Transport::Tls | Transport::Wss);
+    let max_bytes = match (knobs.read_style, tlsish) {
+        (1, true) => max_bytes.min(3000),
+        (1, false) | (2, true) => max_bytes.min(20_000),
+        _ => max_bytes,
+    };
     let mut flows = Vec::new();
     for ix in 0..n_flows {
         let hs = *g.pick(&ALL_HS);
